@@ -205,6 +205,12 @@ def c_sec2ticks(time_in_seconds, mpq, ppq, result):
                 V("seconds_to_midi_ticks-wrong", f"array element {t!r} mpq={mpq} ppq={ppq} -> {r}",
                   {"t": t, "mpq": mpq, "ppq": ppq})
                 break
+    elif isinstance(time_in_seconds, (np.integer, np.floating)):
+        # numpy scalars of any width (a cell of an onset_sec column is single precision): the value they hold is converted
+        ctx.check()
+        if not _tick_ok(int(result), float(time_in_seconds), mpq, ppq):
+            V("seconds_to_midi_ticks-wrong", f"{type(time_in_seconds).__name__}({float(time_in_seconds)!r}) mpq={mpq} ppq={ppq} -> {result!r}",
+              {"t": float(time_in_seconds), "mpq": mpq, "ppq": ppq, "width": type(time_in_seconds).__name__})
     elif isinstance(time_in_seconds, (int, float)):
         ctx.check()
         if not isinstance(result, int) or not _tick_ok(result, time_in_seconds, mpq, ppq):
@@ -607,6 +613,9 @@ def run_item(ctx, item):
         for m in range(128):
             for a4 in (440.0, 415.0, 442):
                 f = ctx.call(M.midi_pitch_to_frequency, m, a4)
+                for width in (np.uint8, np.int8, np.int64, np.uint16):
+                    if m <= np.iinfo(width).max:
+                        ctx.call(M.midi_pitch_to_frequency, width(m), a4)
                 back = ctx.call(M.frequency_to_midi_pitch, float(f), a4)
                 ctx.check()
                 if back is None or int(back) != m:
@@ -656,6 +665,10 @@ def run_item(ctx, item):
                 # tick columns of note arrays are 32-bit integers
                 ctx.call(M.midi_ticks_to_seconds, np.asarray(ra).astype(np.int32), mpq, ppq)
                 ctx.call(M.midi_ticks_to_seconds, np.int32(int(np.asarray(ra).ravel()[-1])), mpq, ppq)
+            # single-precision seconds (the onset_sec column of a note array), far from the origin too
+            t4 = np.float32(t if rng.random() < 0.5 else t + rng.choice([600, 3000, 20000]))
+            ctx.call(M.seconds_to_midi_ticks, t4, mpq, ppq)
+            ctx.call(M.seconds_to_midi_ticks, np.array([t4, np.float32(rng.uniform(0, 5000))], dtype=np.float32), mpq, ppq)
             ctx.check()
             if np.asarray(ra).ravel()[-1] != r:
                 lo, frac = _ticks_exact(t, mpq, ppq)
